@@ -162,6 +162,8 @@ class Planner:
         ip = ItemPlan()
         if tp.draw(8, "i_async") < cfg.async_num // 2:
             ip.delivery = "future"
+            if tp.draw(8, "i_slowc") < cfg.slowc_num:
+                ip.delivery = "slowc"  # awaitable item whose cancellation takes time
             self.n_async += 1
         if tp.draw(32, "i_fault") < cfg.fault_num and cfg.focus != "seriality":
             inner = t.of_type if is_non_null_type(t) else t
